@@ -386,7 +386,7 @@ func TestC03_ExhaustiveTokenizers(t *testing.T) {
 	defer finish(t, rec)
 	maxLen := pick(3, 4)
 	optSets := []int{-1, 0, optAll, optDecodeStrings, optSkipUnknown | optSkipComments | optSkipWhitespaces}
-	rec.Bounds = fmt.Sprintf("all strings of length 0..%d over the 23-symbol class alphabet x 4 tokenizers x 5 option sets (as constructed, none, all, decode only, all skips)", maxLen)
+	rec.Bounds = fmt.Sprintf("all strings of length 0..%d over the 24-symbol class alphabet (the backslash included) x 8 tokenizers x 5 option sets (as constructed, none, all, decode only, all skips)", maxLen)
 	enumStrings(c04Alphabet, maxLen, true, func(parts []string) {
 		s := runesOf(parts)
 		for _, k := range tokKindsExt {
@@ -950,4 +950,95 @@ func TestC03_EnumArrayBuilders(t *testing.T) {
 			}
 		}
 	}
+}
+
+// ---------------------------------------------------------------------------------------
+// Sizes: the long argument lists, chains and nestings of C01's size enumeration, and templates / texts of the same
+// orders of magnitude, must return normally like everything else.
+
+type c03BigCase struct {
+	Kind  string `json:"kind"` // expr | template | tokenize
+	Shape string `json:"shape"`
+	N     int    `json:"n"`
+}
+
+func (c c03BigCase) text() string {
+	switch c.Kind {
+	case "expr":
+		t, _ := c01BigCase{Shape: c.Shape, N: c.N}.build()
+		return t
+	case "template":
+		switch c.Shape {
+		case "nested":
+			return strings.Repeat("{{#a}}x", c.N) + strings.Repeat("{{/a}}", c.N)
+		case "unclosed":
+			return strings.Repeat("{{#a}}x", c.N)
+		case "vars":
+			return strings.Repeat("{{a}}-{{{b}}} ", c.N)
+		}
+		return "Hello {{ " + strings.Repeat("n", c.N) + " }}{{#" + strings.Repeat("s", c.N) + "}}!{{/" + strings.Repeat("s", c.N) + "}}"
+	}
+	switch c.Shape {
+	case "quotes":
+		return strings.Repeat("'a\\' ", c.N)
+	case "symbols":
+		return strings.Repeat("<", c.N) + strings.Repeat("-.", c.N)
+	}
+	return strings.Repeat("/*", c.N) + strings.Repeat("*/", c.N) + strings.Repeat("1e", c.N)
+}
+
+func checkC03Big(c c03BigCase) *evid.Fail {
+	text := c.text()
+	var f *evid.Fail
+	switch c.Kind {
+	case "expr":
+		f = checkC03Expr(c03Expr{Text: text, Vars: []binding{{"a", vInt(1)}}})
+	case "template":
+		f = checkC03Tmpl(c03Tmpl{Text: text, Map: map[string]string{"a": "1", "b": "<>", strings.Repeat("n", c.N): "v", strings.Repeat("S", c.N): "y"}})
+	default:
+		for _, k := range tokKinds {
+			for _, o := range []int{-1, optAll} {
+				if f == nil {
+					f = checkC03Tok(c03Tok{k, o, text})
+				}
+			}
+		}
+	}
+	if f != nil {
+		if len(f.Msg) > 500 {
+			f.Msg = f.Msg[:250] + " ... " + f.Msg[len(f.Msg)-250:]
+		}
+		f.Msg = fmt.Sprintf("%s %s of size %d: %s", c.Kind, c.Shape, c.N, f.Msg)
+	}
+	return f
+}
+
+func init() { regReplay("C03.big", checkC03Big) }
+
+func TestC03_EnumSizes(t *testing.T) {
+	rec := evid.New("C03", "TestC03_EnumSizes", "C03.big", c03Rule+"; sizes: expressions with N arguments / operands / nesting levels, templates with N nested / unclosed sections, N variables, names of N characters, texts of N unterminated literals / symbols / comment openers, N = 15..17, 31..33, 63..65, 127..129, 255..257, 1000 (4096 for texts)")
+	rec.Exhaustive = true
+	rec.DupFree = true
+	defer finish(t, rec)
+	var cases []c03BigCase
+	sizes := []int{15, 16, 17, 31, 32, 33, 63, 64, 65, 127, 128, 129, 255, 256, 257, 1000}
+	for _, n := range sizes {
+		for _, shape := range []string{"args", "argsComputed", "leftChain", "rightChain", "parens", "nestedCalls"} {
+			cases = append(cases, c03BigCase{"expr", shape, n})
+		}
+		for _, shape := range []string{"nested", "unclosed", "vars", "names"} {
+			cases = append(cases, c03BigCase{"template", shape, n})
+		}
+		for _, shape := range []string{"quotes", "symbols", "comments"} {
+			cases = append(cases, c03BigCase{"tokenize", shape, n}, c03BigCase{"tokenize", shape, n * 4})
+		}
+	}
+	rec.Bounds = fmt.Sprintf("%d described inputs", len(cases))
+	parallelFor(len(cases), func(i int) {
+		c := cases[i]
+		rec.Case(jsonStr(c), true, func() interface{} { return c }, "kind:"+c.Kind)
+		if f := checkC03Big(c); f != nil {
+			rec.Fail(f, c)
+		}
+	})
 }
